@@ -1125,12 +1125,29 @@ impl IceTransport {
     pub fn start(&self, remote: IceParameters) -> Result<()> {
         self.start_gathering()?;
         self.start_keepalive();
-        {
+        let same_remote = {
             let mut params = self.inner.remote_parameters.lock();
+            let same = params.as_ref().is_some_and(|p| {
+                p.username_fragment == remote.username_fragment && p.password == remote.password
+            });
             *params = Some(remote);
-        }
-        if let Err(e) = self.inner.state.send(IceTransportState::Checking) {
-            debug!("start: failed to set state to Checking: {}", e);
+            same
+        };
+        // A renegotiation that keeps the ICE credentials is not an ICE restart:
+        // leave an established transport (and its liveness monitor) alone.
+        let established = matches!(
+            *self.inner.state.borrow(),
+            IceTransportState::Connected
+                | IceTransportState::Completed
+                | IceTransportState::Disconnected
+        );
+        if !(same_remote && established) {
+            self.inner
+                .checking_since_nanos
+                .store(self.inner.created_at.elapsed().as_nanos() as u64, Ordering::Relaxed);
+            if let Err(e) = self.inner.state.send(IceTransportState::Checking) {
+                debug!("start: failed to set state to Checking: {}", e);
+            }
         }
         self.try_connectivity_checks();
         Ok(())
